@@ -362,4 +362,32 @@ theorem C10_code_spline_order (negInf : Rat) (mkFn : PInstS → FnObj2) (buildSp
     · simp [ha, hb] at hok
   · simp [ha] at hok
 
+open Atsim.Gen.Logic in
+/-- **code tie (the two spline factories)**: `exp_spline` takes no parameter; `buck4_spline` takes exactly one, `r_min`, which must lie strictly between the detach and the
+attach separation; only then is the spline object built (from the two points as handed in, and `r_min`); otherwise a configuration error -/
+theorem C10_code_build_spline (mkExp : SplPoint → SplPoint → Except SplBuildErr SplCore) (mkB4 : SplPoint → SplPoint → Rat → Except SplBuildErr SplCore)
+    (d a : SplPoint) (mid : PInstS) :
+    exp_build_spline mkExp d a mid = (if mid.parameters.isEmpty then mkExp d a else .error SplBuildErr.config) ∧
+    buck4_build_spline mkB4 d a mid =
+      (match mid.parameters with
+       | [rm] => if d.r < rm ∧ rm < a.r then mkB4 d a rm else .error SplBuildErr.config
+       | _ => .error SplBuildErr.config) := by
+  constructor
+  · unfold exp_build_spline
+    cases h : mid.parameters.isEmpty
+    · simp [h]
+    · simp only [h, Bool.not_true, Bool.false_eq_true, if_false, if_true, andThen]
+      cases mkExp d a <;> rfl
+  · unfold buck4_build_spline
+    match hp : mid.parameters with
+    | [] => simp
+    | [rm] =>
+      simp only [List.length_cons, List.length_nil, List.getElem?_cons_zero, andThen]
+      by_cases h1 : d.r < rm <;> by_cases h2 : rm < a.r <;> simp [h1, h2]
+      cases mkB4 d a rm <;> rfl
+    | x :: y :: r =>
+      have hl : ((((x :: y :: r).length : Nat) : Int) == (1 : Int)) = false := by
+        simp only [List.length_cons]; apply beq_false_of_ne; omega
+      simp only [hl, Bool.false_eq_true, if_false]
+
 end Atsim.C10
